@@ -31,6 +31,7 @@ type Property struct {
 	Packages    []string // module-relative packages the rules need (quick tier)
 	Explanation string   // what is decided and what is not
 	Assumptions []string
+	Technique   string // a few words naming the deciding method (MANIFEST "technique")
 	Run         func(c *Ctx)
 	// ThoroughGOOS lists extra GOOS values under which the rules are re-run in
 	// the thorough tier (rules must be platform independent for those).
